@@ -150,3 +150,23 @@ PROPS["C11"] = Prop(
     trusted_base=VERUS_TRUST + COMMON_TRUST,
     not_covered=["xs[i] read / xs[i] = v (inside eval_expr / bind_next)", "aliasing between xs and ys"],
 )
+
+
+V_RENDER = VUnit("render", "render", ["main::eval_err_to_stacktrace"])
+
+PROPS["C17"] = Prop(
+    "C17", "proof",
+    "(1) Unit V-render: main.rs::eval_err_to_stacktrace copied verbatim and verified against a specification GENERATED from the "
+    "extracted enum Error on every run: every variant carrying `source: Box<Error>` other than AtLoc / EvalFuncCallFailed / "
+    "EvalBuiltinFuncCallFailed is invisible to the renderer, each user-call wrapper yields exactly one stack-trace line. "
+    "(2) Located-ness as an inductive postcondition `located(e)` (AtLoc, or a context wrapper of a located error) on every function "
+    "of the V units: assuming callees return located errors, the function returns located errors.",
+    vunits=[V_RENDER, V_CTL, V_RANGE],
+    assumptions=[
+        "message TEXT is not under contract (format! is opaque): 'human-readable, no internal identifier' follows from transparency + located-ness only for errors whose Display text is human-readable",
+        "stdout/stderr ordering and exit status 103 (process-level, main is I/O) are not under contract",
+        "raise sites inside eval_expr / bind_next / bind_object arms are not in a V unit: their located-ness is an assumed callee contract",
+    ],
+    trusted_base=VERUS_TRUST,
+    not_covered=["message wording", "process exit status / stream ordering", "raise sites in eval_expr, bind_next, bind_object, builtins"],
+)
